@@ -48,6 +48,11 @@ class Ctx:
         self.run = os.path.join(ROOT, "run", prop)
         shutil.rmtree(self.run, ignore_errors=True)
         os.makedirs(self.run)
+        rdir = os.path.join(ROOT, "replays")
+        if os.path.isdir(rdir):
+            for f in os.listdir(rdir):
+                if f.startswith(prop + "-"):
+                    os.remove(os.path.join(rdir, f))
         self.states = 0          # distinct states over all TLC runs
         self.transitions = 0     # states generated (= transitions evaluated)
         self.tlc_runs = []
@@ -215,7 +220,34 @@ def parse_dump(path):
         yield flat
 
 
-_VERDICT = re.compile(r'verdict = \[\s*ok \|-> (TRUE|FALSE),\s*class \|-> "([^"]*)",\s*why \|-> "([^"]*)"\s*\]')
+_V_OK = re.compile(r'\bok \|-> (TRUE|FALSE)')
+_V_CLASS = re.compile(r'\bclass \|-> "([^"]*)"')
+_V_WHY = re.compile(r'\bwhy \|-> "([^"]*)"')
+
+
+class _Verdict:
+    def __init__(self, ok, cls, why):
+        self.g = (None, ok, cls, why)
+
+    def group(self, i):
+        return self.g[i]
+
+
+class _VerdictRe:
+    """TLC prints record fields in an order that depends on string interning: match each field."""
+    @staticmethod
+    def search(flat):
+        i = flat.find("verdict = [")
+        if i < 0:
+            return None
+        part = flat[i:]
+        a, b, c = _V_OK.search(part), _V_CLASS.search(part), _V_WHY.search(part)
+        if not (a and b and c):
+            return None
+        return _Verdict(a.group(1), b.group(1), c.group(1))
+
+
+_VERDICT = _VerdictRe
 _L = re.compile(r"/\\ l = (\d+)")
 
 
